@@ -33,6 +33,8 @@ func checkC05(p *Prog, r *Report) {
 	c12Leap(p, r, "C05.R5b")
 	c12LeapThreshold(p, r)
 	c12InverseDayOfYear(p, r)
+	c12Formats(p, r, "C05.R5c")
+	c12Century(p, r)
 	// the crop record is written when the harvest branch fires; a crop whose harvest date is never set gets no
 	// record and blocks the records of all later rotation entries (shared with C16.R3)
 	c16Harvest(p, r, "C05.R6")
